@@ -129,6 +129,30 @@ pub fn kahan_prog<F: FElem>(toks: &[String]) -> String {
                 }
                 i += 5;
             }
+            "F" => {
+                // left fold of `nreg` registers of `k` generated values each: `acc = acc + r` (by value) and
+                // `acc += r` alternately
+                let id: u64 = toks[i + 1].parse().unwrap();
+                let seed: u64 = toks[i + 2].parse().unwrap();
+                let param = f64::from_bits(u64::from_str_radix(&toks[i + 3][1..], 16).unwrap());
+                let nreg: u64 = toks[i + 4].parse().unwrap();
+                let k: u64 = toks[i + 5].parse().unwrap();
+                let mut g = SeqGen::new(id, seed, param);
+                let mut acc = st.pop().unwrap();
+                for j in 0..nreg {
+                    let mut r = KahanSum::<F>::default();
+                    for _ in 0..k {
+                        r += F::from64(g.next());
+                    }
+                    if j % 4 == 3 {
+                        acc += r;
+                    } else {
+                        acc = acc + r;
+                    }
+                }
+                st.push(acc);
+                i += 6;
+            }
             "d" => {
                 let c = *st.last().unwrap();
                 st.push(c);
@@ -395,6 +419,12 @@ pub fn c08(out: &mut Vec<String>, rng: &mut Rng, tier: &str) {
         out.push(format!("C08 kahan f {} => {}", toks.join(" "), kahan_prog::<f64>(&toks)));
         let t32: Vec<String> = toks.iter().map(|t| if t.starts_with('x') && t.len() == 17 { (f64::from_bits(u64::from_str_radix(&t[1..], 16).unwrap()) as f32).enc() } else { t.clone() }).collect();
         out.push(format!("C08 kahan g {} => {}", t32.join(" "), kahan_prog::<f32>(&t32)));
+    }
+    // long left folds of small registers, merged by value (`acc + r`) and in place (`acc += r`)
+    for (nreg, k, id, param) in [(30_000u64, 3u64, 0u64, 0.1f64), (100_000, 3, 1, 1.1), (20_000, 8, 2, 1.0), (50_000, 1, 1, -0.7)] {
+        let toks: Vec<String> = vec!["E".into(), "F".into(), format!("{}", id), format!("{}", rng.next() >> 1), param.enc(), format!("{}", nreg), format!("{}", k), "q".into()];
+        out.push(format!("C08 kahan g {} => {}", toks.join(" "), kahan_prog::<f32>(&toks)));
+        out.push(format!("C08 kahan f {} => {}", toks.join(" "), kahan_prog::<f64>(&toks)));
     }
     // long streams of one sign, negative as well as positive (running total dominated by what was added before)
     for (n, id, param) in [(100_000u64, 1u64, -1.1f64), (100_000, 0, -0.1), (300_000, 1, -3.7), (100_000, 1, 2.3)] {
@@ -718,14 +748,22 @@ impl Acc for proportion::Stats {
     }
     fn extend(&mut self, obs: &[String]) {
         let v: Vec<bool> = obs.iter().map(|t| t == "T").collect();
-        if v.len() % 2 == 0 {
-            proportion::Stats::extend(self, &v);
-        } else {
-            self.extend_if(&v, |x| *x);
+        match v.len() % 4 {
+            0 => proportion::Stats::extend(self, &v),
+            1 => self.extend_if(&v, |x| *x),
+            // containers with gaps (inexact size hint)
+            2 => proportion::Stats::extend(self, &Sparse::of(&v, 3)),
+            _ => self.extend_if(&Sparse::of(&v, 2), |x| *x),
         }
     }
     fn from_iter(obs: &[String]) -> Self {
-        obs.iter().map(|t| t == "T").collect()
+        if obs.len() % 2 == 0 {
+            obs.iter().map(|t| t == "T").collect()
+        } else {
+            // a lazily thinned iterator: its size hint is only an upper bound
+            let padded: Vec<Option<bool>> = obs.iter().flat_map(|t| [None, Some(t == "T")]).collect();
+            padded.iter().filter_map(|x| *x).collect()
+        }
     }
     fn merge_assign(&mut self, r: Self) {
         *self += r;
